@@ -32,7 +32,14 @@ type Program struct {
 	srcHash map[string]string
 }
 
-const repoDir = "/repo"
+// repoDir: the tree under verification. Always /repo for registered checks; VF_REPO lets a
+// development sweep (vp run --with-repo) read a snapshot instead while /repo is being edited.
+var repoDir = func() string {
+	if d := os.Getenv("VF_REPO"); d != "" {
+		return d
+	}
+	return "/repo"
+}()
 
 func harnessDir() string {
 	if d := os.Getenv("VF_HARNESS_DIR"); d != "" {
